@@ -138,6 +138,7 @@ class FakeFSM:
         self.crew_wait = False
         self.archives = 0
         self.archive_stops = False   # C11: follow the real machine (archiving => not active)
+        self.on_archive = None       # C11: called at the moment the trigger fires (inside a tick)
 
     def is_pipeline_active(self):
         return self.active
@@ -148,6 +149,8 @@ class FakeFSM:
     def archiving_trigger(self):
         # the real machine moves to `archiving`: the pipeline is no longer active
         self.archives += 1
+        if self.on_archive is not None:
+            self.on_archive()
         if self.archive_stops:
             self.active = False
 
